@@ -3,6 +3,8 @@ import NTV.Proofs.C09
 import NTV.Proofs.C10
 import NTV.Proofs.Lemmas.PolyZProofs4
 import NTV.Proofs.Lemmas.ZassenhausMain
+import NTV.Proofs.Lemmas.NoPanicZassenhaus
+import NTV.Proofs.Lemmas.NoPanicZassenhaus2
 /-! # C07 — factorisation over ℤ: what is proved so far.
 Irreducibility of the returned factors and completeness of the product rest on Mignotte's bound, Hensel
 uniqueness and Cantor–Zassenhaus; they are certified on every explored case by an independent oracle
@@ -513,5 +515,87 @@ example := factors_irreducible _ _ _ _ (by simp) canon_example run_example
 example : C (2 : ℤ) * ([([1, 1], 2), ([-1, 1, 1], 1)].map fun fe : List Int × Nat => toPoly fe.1 ^ fe.2).prod
     = toPoly [-2, -2, 4, 6, 2] := product_identity _ _ _ _ (by simp) canon_example run_example
 example := complete _ _ _ _ (by simp) canon_example run_example
+
+end NTV.C07
+
+/-! ## Panic-freedom: on a canonical input of degree ≤ 25 the only failures are inconclusive runs
+
+The Rust code asserts `lifted.len() <= 25` (the subsets are enumerated with a machine-word bit mask): the
+number of lifted factors is at most deg(squarefree part) ≤ deg a, so deg a ≤ 25 (`a.length ≤ 26`) is the
+honest precondition; it cannot be weakened to 26 in general (∏_{i<26} (x − i) is squarefree modulo 29, the
+first prime the search accepts, and splits there into 26 linear factors: by C08/C11 correctness 26 lifted
+factors reach the assertion, which fires). -/
+namespace NTV.C07
+open NTV.PolyG NTV.PolyZ
+
+/-- **C07 panic-freedom.** For every canonical `a` with deg a ≤ 25 (including 0 and the constants) and EVERY
+draw stream: a run of `factorize` that does not return fails with `inconclusive stream` (the random chunks
+for `factorize_mod_p` ran out) or `inconclusive fuel`. No Rust panic is possible: `resultant_gcd` performs
+only exact divisions by non-zero numbers, both `div_exact(..).expect(..)` succeed (the gcd divides pp(a); by
+Gauss' lemma the primitive part of an accepted candidate divides the current cofactor), the prime search
+never computes `x % 0`, `factorize_mod_p` is called on legal input (C08 panic-freedom), its exponents are
+all 1 (squarefree modulo p), `lift_factorization` is total, `lifted.len() ≤ 25`, and a subset product is
+never the zero polynomial (no `prod.deg() + 1` overflow).
+
+What remains behind `inconclusive fuel` (fuel exhaustion is a property of the model, not a panic) is exactly
+the prime search over the first 100000 primes, see `fuel_only_prime_search` (it is genuinely exhaustible: all
+of them may divide lc(a), e.g. a = (∏ first 100000 primes)·x + 1; the Rust loop would go on). -/
+theorem no_panic (a : List Int) (s : NTV.Draw.Stream) (e : String) (hca : Canon a) (hdeg : a.length ≤ 26)
+    (h : factorize a s = .error e) : e = "inconclusive stream" ∨ e = "inconclusive fuel" :=
+  factorize_no_panic a s e hca hdeg h
+
+/-- the same for `get_factors_of_squarefree` on a canonical primitive polynomial of degree 1..25 (squarefree
+or not: on a non-squarefree input the prime search runs out of fuel) -/
+theorem squarefree_stage_no_panic (a : List Int) (s : NTV.Draw.Stream) (e : String) (hca : Canon a)
+    (hprim : (toPoly a).IsPrimitive) (hlen : 2 ≤ a.length) (hdeg : a.length ≤ 26)
+    (h : getFactorsOfSquarefree a s = .error e) : e = "inconclusive stream" ∨ e = "inconclusive fuel" :=
+  getFactorsOfSquarefree_no_panic a s e hca hprim hlen hdeg h
+
+/-- **C07, termination.** On the same inputs `inconclusive fuel` has a single cause: the prime search of
+`get_factors_of_squarefree` went through the first 100000 primes without finding one that does not divide the
+leading coefficient of the squarefree part `sq` of pp(a) and modulo which `sq` stays squarefree. Every other
+loop terminates within the fuel of the model: `powerAbove`, the recombination `combine` (each round removes
+d ≥ 1 lifted factors or increments d), `multiplicity`, and all of `factorize_mod_p` (C08) and
+`lift_factorization` (C11). `g` is the subresultant gcd of pp(a) and its derivative, `sq = pp(a) / g`. -/
+theorem fuel_only_prime_search (a : List Int) (s : NTV.Draw.Stream) (e : String) (hca : Canon a)
+    (hdeg : a.length ≤ 26) (h : factorize a s = .error e) :
+    e = "inconclusive stream" ∨ (e = "inconclusive fuel" ∧ ∃ g sq : List Int,
+      resultantGcd (contPP a).2 (differential (contPP a).2) = .ok g ∧
+      (if degU g ≠ 0 then divExactExpect (contPP a).2 g else pure (contPP a).2) = .ok sq ∧
+      primeSearch sq (degU sq) 100000 2 = .error "inconclusive fuel") :=
+  factorize_fuel a s e hca hdeg h
+
+/-- the same for `get_factors_of_squarefree` -/
+theorem squarefree_stage_fuel (a : List Int) (s : NTV.Draw.Stream) (e : String) (hca : Canon a)
+    (hprim : (toPoly a).IsPrimitive) (hlen : 2 ≤ a.length) (hdeg : a.length ≤ 26)
+    (h : getFactorsOfSquarefree a s = .error e) :
+    e = "inconclusive stream" ∨
+      (e = "inconclusive fuel" ∧ primeSearch a (degU a) 100000 2 = .error "inconclusive fuel") :=
+  getFactorsOfSquarefree_fuel a s e hca hprim hlen hdeg h
+
+/-- a successful prime search excludes `inconclusive fuel` altogether -/
+theorem squarefree_stage_stream_only (a : List Int) (s : NTV.Draw.Stream) (e : String) (hca : Canon a)
+    (hprim : (toPoly a).IsPrimitive) (hlen : 2 ≤ a.length) (hdeg : a.length ≤ 26) (p : Int) (pu : Nat)
+    (hps : primeSearch a (degU a) 100000 2 = .ok (p, pu))
+    (h : getFactorsOfSquarefree a s = .error e) : e = "inconclusive stream" := by
+  rcases squarefree_stage_fuel a s e hca hprim hlen hdeg h with h1 | ⟨_, h2⟩
+  · exact h1
+  · rw [hps] at h2; cases h2
+
+/-- the recombination loop under its invariant: only the fuel can fail -/
+theorem combine_no_panic {P e : ℕ} {pe pe2 : Int} {A : ℤ[X]} (S : Setup P e pe pe2 A) (hA : A.natDegree ≤ 25)
+    (fuel : Nat) (a : List Int) (L : List (List Int)) (d : Nat) (result : List (List Int)) (err : String)
+    (ha : a ≠ []) (hca : Canon a) (I : NTV.Zas.Inv P e A (toPoly a) (L.map toPoly) d)
+    (h : combine pe pe2 fuel a L d result = .error err) : err = "inconclusive fuel" :=
+  combine_error S hA fuel a L d result err ha hca I h
+
+/-! non-vacuity: x² − 1 needs draws modulo 3, so the empty stream is inconclusive — with exactly this message;
+the theorem applied to the input of `run_example` -/
+example : factorize [-1, 0, 1] [] = .error "inconclusive stream" := by decide +kernel
+example : ∀ s e, getFactorsOfSquarefree [1, 0, 0, 0, 1] s = .error e → e = "inconclusive stream" :=
+  fun s e h => squarefree_stage_stream_only _ s e (by intro _; simp)
+    (NTV.Res.isPrimitive_of_list _ (fun d hd => hd 1 (by simp))) (by simp) (by simp) 3 3 (by decide +kernel) h
+example : ∀ s e, factorize [-2, -2, 4, 6, 2] s = .error e → e = "inconclusive stream" ∨ e = "inconclusive fuel" :=
+  fun s e h => no_panic _ s e canon_example (by decide) h
 
 end NTV.C07
